@@ -486,7 +486,7 @@ func r05_3(c *RC) {
 		key := "store:segment.block@" + fnName(s.Fn)
 		ok := true
 		why := ""
-		for _, l := range Leaves(s.Val, nil) {
+		for _, l := range LeavesIP(p, s.Fn, s.Val, 0) {
 			switch {
 			case isNilConst(l):
 			case sameField(fieldOrigin(l), recv), sameField(fieldOrigin(l), segBlock):
